@@ -61,13 +61,17 @@ Example C02_refuted_D10_contref : roundtrip_enc (VRef true (HAbs false ACont)) =
 Proof. exact valtype_refuted_contref. Qed.
 Example C02_refuted_D10_shared : roundtrip_enc (VRef true (HAbs true AAny)) = Some (VRef true (HAbs false AAny)).
 Proof. exact valtype_refuted_shared. Qed.
-(* the wasmparser direction (add_global, BlockType -- not used by the unmodified round trip): (ref func) -> funcref *)
-Example C02_wp_direction_ref_func : roundtrip_wp (VRef false (HAbs false AFunc)) = Some (VRef true (HAbs false AFunc))
+(* the wasmparser direction (add_global, BlockType -- not used by the unmodified round trip) used to turn (ref func) into
+   funcref (D10d / D30, repaired): both directions keep it, and the wasmparser direction is faithful outside D10 too *)
+Example C02_wp_direction_ref_func : roundtrip_wp (VRef false (HAbs false AFunc)) = Some (VRef false (HAbs false AFunc))
                                     /\ roundtrip_enc (VRef false (HAbs false AFunc)) = Some (VRef false (HAbs false AFunc)).
-Proof. split; [exact valtype_wp_refuted_ref_func | exact valtype_enc_keeps_ref_func]. Qed.
-Theorem C02_valtype_wp_faithful : forall t, in_profile t -> known_D10 t = false -> d10_wp_nonnull_func_extern t = false ->
-  roundtrip_wp t = Some t.
+Proof. split; [exact valtype_wp_keeps_ref_func | exact valtype_enc_keeps_ref_func]. Qed.
+Theorem C02_valtype_wp_faithful : forall t, in_profile t -> known_D10 t = false -> roundtrip_wp t = Some t.
 Proof. exact valtype_wp_faithful. Qed.
+Theorem C02_wp_direction_agrees_with_enc : forall d,
+  match d with DT_RecGroup _ | DT_CoreTypeId _ => True | _ => to_val_wp d = to_val_enc d end.
+Proof. exact to_val_wp_agrees_with_enc. Qed.
+Print Assumptions C02_wp_direction_agrees_with_enc.
 
 Theorem C02_checker_sound : forall c, agree02 c = true -> pred_parse c = OOk -> d10_in c = false -> holds02 c = true.
 Proof. exact checker_sound02. Qed.
